@@ -4,6 +4,7 @@ import (
 	"bytes"
 	"encoding/json"
 	"fmt"
+	"math"
 	"strconv"
 	"strings"
 	"time"
@@ -79,6 +80,10 @@ func JSONWriteIntProp(b *[]byte, n string, d int64) (notEmpty bool) {
 }
 
 func JSONWriteFloatProp(b *[]byte, n string, f float64) (notEmpty bool) {
+	if math.IsNaN(f) || math.IsInf(f, 0) {
+		// JSON has no notation for these ("NaN", "+Inf" are not JSON): the property is left out
+		return false
+	}
 	return JSONWriteProp(b, n, []byte(fmt.Sprintf("%f", f)))
 }
 
